@@ -80,7 +80,7 @@ def download_scenario(rng, plens, seed, outgoing):
                 sim.assign(nxt)
     if rng.random() < 0.3:
         ev.append(ev_wait(120000))
-    return ev
+    return ev[:3] + split_events(rng, ev[3:], 0.1)
 
 
 class C10(HndBase):
